@@ -44,6 +44,10 @@ def split_top(s, sep=','):
     return out
 
 
+_ALIASES = {'Point3': 'OPoint', 'Point2': 'OPoint', 'Point': 'OPoint', 'UnitVec3': 'Unit', 'UnitVec2': 'Unit', 'Vector3': 'Matrix', 'Vector2': 'Matrix', 'SVector': 'Matrix',
+            'SurfacePoint3': 'SurfacePoint', 'SurfacePoint2': 'SurfacePoint', 'Iso3': 'Isometry', 'Iso2': 'Isometry'}
+
+
 class MirFn:
     def __init__(self, name, sig, ret, body, line):
         self.name, self.sig, self.ret, self.body, self.line = name, sig, ret, body, line
@@ -315,7 +319,21 @@ class Mir:
         if not hm:
             return False
         have = re.sub(r'\s+', '', hm.group(1)).replace("'_", '').split('::')[-1]
-        return have.lstrip('&') == want.lstrip('&') and have.startswith('&') == want.startswith('&')
+        if have.lstrip('&') == want.lstrip('&') and have.startswith('&') == want.startswith('&'):
+            return True
+        # tuple arguments / type aliases: compare the whole first generic argument after alias normalisation
+        def norm(t):
+            t = re.sub(r"\s+|'_|'\w+\b", '', strip_generics(t))
+            t = re.sub(r'(\w+::)+', '', t)
+            for a, b in _ALIASES.items():
+                t = re.sub(r'\b' + a + r'\b', b, t)
+            return t
+        full_want = re.sub(r'^[^<]*<', '', trait_args, count=1)
+        full_want = full_want[:full_want.rfind('>')] if full_want.rstrip().endswith('>') else full_want
+        hm2 = re.search(r'impl\s*(?:<[^>]*>)?\s+\w+<(.*)>\s+for\s', h)
+        if hm2 and norm(hm2.group(1)) == norm(full_want):
+            return True
+        return False
 
     def closure_body(self, span):
         n = self.closures.get(span)
